@@ -68,9 +68,11 @@ type Conn struct {
 	wbusy         bool          // a Write is in progress: like the fd write lock, a second Write waits for it whatever the deadline
 	CloseErr      bool          // Close releases the connection but reports an error (tls.Conn does when close_notify cannot be written)
 	CutRST        bool
-	Window        int // >0: Write blocks while more than Window bytes are unconsumed
-	ReadCap       int // >0: the next Read returns at most this many bytes (short read)
-	enq           int // bytes accepted from the peer so far (before cut)
+	Window        int  // >0: Write blocks while more than Window bytes are unconsumed
+	ReadCap       int  // >0: the next Read returns at most this many bytes (short read)
+	EmptyReads    int  // per-mille chance that a delivery is preceded by an empty read
+	EmptyNext     bool // the next Read that has data returns (0, nil) first, as for a zero-length segment of the peer
+	enq           int  // bytes accepted from the peer so far (before cut)
 	Delivered     int
 	ReadBytes     int
 
@@ -168,6 +170,13 @@ func (c *Conn) Read(p []byte) (int, error) {
 			return 0, nil
 		}
 		if len(c.inbox) > 0 {
+			if c.EmptyNext {
+				// io.Reader allows it, net.Pipe does it for an empty Write of the peer
+				c.EmptyNext = false
+				c.Fired["empty_read"]++
+				c.unlock()
+				return 0, nil
+			}
 			n := len(c.inbox)
 			if n > len(p) {
 				n = len(p)
@@ -485,6 +494,9 @@ func (c *Conn) Deliver(n int, readCap int) {
 		c.queue = c.queue[n:]
 		c.Delivered += n
 		c.ReadCap = readCap
+		if c.EmptyReads > 0 && c.Sim.C.Draw("empty?", 1000) < c.EmptyReads {
+			c.EmptyNext = true
+		}
 	}
 	if len(c.queue) == 0 {
 		if c.rstQ {
